@@ -587,7 +587,7 @@ open Spec Refine in
 /-- **Refinement, loops included**, with all side conditions on the syntax tree:
     `compute_refines_partial` where `guardsFresh cmd` follows from `guardsPlain node`. -/
 theorem compute_refines_plain_partial (node : Node) (cmd : Cmd) (hd : desugar node = some cmd)
-    (q : Bool) (idx : Nat) (dg : DG.Graph) (hnames : namesOkA node = true) (hcast : castOkA node = true)
+    (q : Bool) (idx : Nat) (dg : DG.Graph) (hnames : namesOkA node = true)
     (hplain : guardsPlain node = true)
     (out : Analysis.Out) (hc : Analysis.compute q idx dg node = .ok out) :
     (q = true → out.exit = false) ∧
@@ -605,7 +605,7 @@ theorem compute_refines_plain_partial (node : Node) (cmd : Cmd) (hd : desugar no
           | some (k, M) => k = idx + cmd.arity ∧ (∀ a b, r.den c a b ≠ .i) ∧
                            ∀ x y, x ∈ U → y ∈ U → r.den c x y = SMat.den U M x y
           | none => ∃ a b, r.den c a b = .i) :=
-  compute_refines_partial node cmd hd q idx dg hnames hcast
+  compute_refines_partial node cmd hd q idx dg hnames
     (guardsFresh_of_guardsPlain node cmd hd hplain) out hc
 
 end Mwp
